@@ -1,11 +1,16 @@
 #!/usr/bin/env python3
 """Freeze per-rule instance floors from the evidence of the current (reviewed) tree.
-Run only after reading the obligation lists; floors are lower bounds, new code may add instances."""
+
+A floor is a vacuity guard: every rule that produced instances on the reviewed tree must keep
+producing at least one (a rule that silently matches nothing would pass forever). Counts that
+are semantically meaningful (exactly one install site, exactly two raft-made entries, ...) are
+explicit obligations of the rules themselves, not floors, so that merging two returns or
+extracting a helper does not raise an alarm."""
 import json, glob, os
 root = os.path.dirname(os.path.dirname(os.path.abspath(__file__)))
 floors = {}
 for f in sorted(glob.glob(os.path.join(root, "evidence", "C*.json"))):
     e = json.load(open(f))
-    floors[e["property_id"]] = dict(sorted(e["coverage"]["rule_instances"].items()))
+    floors[e["property_id"]] = {k: 1 for k, v in sorted(e["coverage"]["rule_instances"].items()) if v >= 1}
 json.dump(floors, open(os.path.join(root, "checker", "floors.json"), "w"), indent=1, sort_keys=True)
-print({k: sum(v.values()) for k, v in floors.items()})
+print({k: len(v) for k, v in floors.items()})
